@@ -249,4 +249,29 @@ CHECKS["C20"] = {
     "level_note": "Trusted: Value::to_string as a faithful rendering of a captured delta; the scripted writer as the source of truth for what was written.",
 }
 
+CHECKS["C10"] = {
+    "title": "map_ runs one isolated instance per key and mirrors the key set",
+    "level": "model_checking",
+    "technique": "exhaustive enumeration of key histories x mapped-function vocabulary on the real map_ node; differential oracle: every key life "
+                 "is re-run ALONE on the real engine and the map output must equal the per-key alone runs",
+    "design_ref": "DESIGN.md 2/C10",
+    "parts": [{"name": "map", "exe": "c10_map", "sources": ["c10_map.cpp"], "shards": 16}],
+    "rule": "input: scripted TSD<Int,TS<Int>> writer, every sequence over T cycles of lists of <= L operations from {set k=v for 2-3 keys, erase k, "
+            "clear, bulk add of 9 keys (slot-store growth)}; functions: stateless node, stateful counter, key-consuming (key*100+ts), late-valid "
+            "(output only from its 2nd tick), 2-node chain, self-scheduling debounce (each input re-arms one tagged deadline 2-4 steps ahead), "
+            "broadcast second argument (every valid history of a second source). Oracle: the input's net per-cycle history defines key lives "
+            "(appearance..observed removal); each life's element stream is fed to the same function wired ALONE (real engine, window cut at the "
+            "removal); the map output's value / modified items / added keys / removed keys in every cycle must equal the union of the alone runs "
+            "shifted to their appearance cycles (=> key set follows valid child outputs, isolation, fresh state on re-appearance, pending timers "
+            "of removed keys never fire, timers of live keys all fire); child graph starts == stops == number of key lives. states = distinct "
+            "output traces; transitions = output ticks compared; non-trivial = >= 2 key lives with a timer firing or >= 3 lives.",
+    "bounds": {"quick": "L<=2 x T=3 (7-op alphabet), timer: L=1 x T=5 and L<=2 x T=3, broadcast: L=1 x T=4 x 54 broadcast histories",
+               "thorough": "L<=2 x T=4, timer: L=1 x T=6 and L<=2 x T=4, broadcast: L=1 x T=5"},
+    "min_counters": {"quick": {"nontrivial": 50000, "states": 3000, "map.cases_timer": 10000}},
+    "assumptions": COMMON_ASSUMPTIONS + ["A key erased and re-added within one cycle is not an observed removal (the input delta shows no removal): its child continues.",
+                                           "Nested maps, key-set source re-pointing, tsl_map and mesh are not explored."],
+    "level_text": "Every execution of the bounded key-history x function space is validated against executions of the same function alone on the real engine.",
+    "level_note": "Trusted: the life segmentation of the input history in harness/c10_map.cpp; the alone run as the meaning of 'the function run alone'.",
+}
+
 NOT_APPLICABLE = {}
